@@ -344,7 +344,6 @@ type c58Obs struct {
 	HandlerMD    []map[string][]string // credential-related metadata per handler invocation
 	WirePlain    bool                  // the client's byte stream is plaintext HTTP/2 (decodable)
 	WireFields   [][2]string           // credential-related header fields decoded from the client's byte stream
-	WireRawHit   bool                  // the literal secret appears in the raw client bytes
 	WireBytes    int
 	MetaCallsD   int32 // GetRequestMetadata invocations, dial-level / bundle credential
 	MetaCallsC   int32 // ... call-level credential
@@ -405,7 +404,7 @@ func c58RunCase(env *c58Env, tr c58Transport, c c58Case) (o c58Obs) {
 		}
 		return ss.SendMsg([]byte("pong:" + string(in)))
 	}
-	srv := grpc.NewServer(grpc.Creds(srvCreds), grpc.UnknownServiceHandler(handler), grpc.ForceServerCodecV2(c58Codec{}))
+	srv := grpc.NewServer(grpc.Creds(srvCreds), grpc.UnknownServiceHandler(handler), grpc.ForceServerCodecV2(c58Codec{}), grpc.WaitForHandlers(true))
 	lis := c58NewListener()
 	served := make(chan struct{})
 	go func() { srv.Serve(lis); close(served) }()
@@ -453,7 +452,6 @@ func c58RunCase(env *c58Env, tr c58Transport, c c58Case) (o c58Obs) {
 		b := tee.bytes()
 		o.WireBytes = len(b)
 		o.WirePlain, o.WireFields = c58DecodeWire(b)
-		o.WireRawHit = bytes.Contains(b, []byte("c58-secret"))
 	}
 	cc, err := grpc.NewClient("passthrough:///x.test.example.com:443", dopts...)
 	if err != nil {
@@ -535,7 +533,7 @@ func c58Judge(tr c58Transport, c c58Case, o c58Obs) (v c58Verdict) {
 
 	failed := o.NewClientErr != "" || o.RPCErr != ""
 	if v.MustBlock {
-		// never sent: neither decoded from the wire, nor raw, nor seen by the handler
+		// never sent: neither decoded from the wire nor seen by the handler
 		for _, f := range o.WireFields {
 			if requiring[f[0]] {
 				fail("secure-credential-on-weak-connection", "credential header %q (its PerRPCCredentials require transport security) was written on a connection with security level %v", f[0], *tr.Declared)
